@@ -185,7 +185,8 @@ func (ev *evalCtx) eval(e *Expr) Term {
 			if err != nil {
 				ev.fail("%v", err)
 			}
-			vn := q("bv:" + bv.Name)
+			c.fresh++
+			vn := q(fmt.Sprintf("bv:%s!%d", bv.Name, c.fresh))
 			n.bound[bv.Name] = Term{vn, s, gt}
 			binders = append(binders, fmt.Sprintf("(%s %s)", vn, s))
 		}
@@ -360,6 +361,9 @@ func (ev *evalCtx) ident(name string) Term {
 		s := "(Array Ref (Array Int " + name[len("sentlog_"):] + "))"
 		return Term{ev.tr.get(ev.cur, "G:"+name, s), s, nil}
 	}
+	if name == "val_zero" {
+		return Term{"val_zero", "Val", nil}
+	}
 	if name == "clock" {
 		return Term{ev.tr.get(ev.cur, "$clock", "Int"), "Int", nil}
 	}
@@ -524,12 +528,19 @@ func (ev *evalCtx) call(e *Expr) Term {
 		if c.home == nil {
 			ev.fail("no home package")
 		}
-		obj := c.home.Scope().Lookup(name)
+		gpkg := c.home
+		if i := strings.LastIndex(name, "."); i >= 0 {
+			if p, ok := ev.tr.eng.ByName[name[:i]]; ok {
+				gpkg = p.Types
+				name = name[i+1:]
+			}
+		}
+		obj := gpkg.Scope().Lookup(name)
 		if obj == nil {
 			ev.fail("unknown package-level variable %q", name)
 		}
 		vs := c.sortOf(obj.Type())
-		g := c.declConst("glob:"+c.home.Path()+"."+name, "Ref")
+		g := c.declConst("glob:"+gpkg.Path()+"."+name, "Ref")
 		return Term{app("select", ev.tr.get(ev.cur, "C:"+vs, "(Array Ref "+vs+")"), g), vs, obj.Type()}
 	case "bitsof":
 		// bitsof("I"): bit width of an integer type parameter
